@@ -194,7 +194,25 @@ def base_tags(g, e, v):
         if w is None:
             w = _fetched_halfword(g, e)
         if w is not None:
-            t['imm_nonzero'] = bool(((w >> 9) & 1) << 5 | ((w >> 3) & 31))
+            imm = ((w >> 9) & 1) << 5 | ((w >> 3) & 31)
+            t['imm_nonzero'] = bool(imm)
+            # the recorded defect is exactly "offset scaled by 4 instead of 2": the new PC is pc + 4 + 4 * imm
+            try:
+                pc = unlimbs(pre_value(g, e, 'R', 'PC'))
+                t['cbz_offset_x4'] = unlimbs(e['d'].get('R', {}).get('PC', [0, 0])) == (pc + 4 + 4 * imm) & 0xFFFFFFFF
+            except Exception:
+                pass
+    if t['enc'] in ('MRS_A1', 'MRS_T1'):
+        # the recorded defect is exactly "Rd := CPSR & 0xF80F0000": one register changed (besides the PC) and it holds that value
+        try:
+            cpsr = unlimbs(pre_value(g, e, 'cpsr'))
+            regs = {k: v for k, v in e['d'].get('R', {}).items() if k != 'PC'}
+            t['mrs_apsr_only'] = len(regs) == 1 and unlimbs(list(regs.values())[0]) == cpsr & 0xF80F0000
+        except Exception:
+            pass
+    if t['enc'] in ('BFI_A1', 'BFI_T1'):
+        # the recorded defect changes the destination register's value only: exactly one R.* clause fails
+        t['one_register_clause'] = len([c for c in v['v'] if c.startswith('R.')]) == 1 and all(c.startswith('R.') for c in v['v'])
     return t
 
 
